@@ -90,7 +90,9 @@ def gen_insert(eng, rng, n, target="main"):
     if kind == "automatic" and not rng.chance(0.5, "autonamed"):
         named = False
     if fam in XML_FAMILIES:
-        named = True  # these definitions are addressed by name only: an unnamed one is not a valid input
+        # these definitions are addressed by name only: an unnamed one is not a valid input - except as an AUTOMATIC
+        # style of the data / list families, which insert_style names itself (odfdo_auto_N)
+        named = not (kind == "automatic" and fam in ("list", "number", "percentage", "date", "time", "boolean", "currency") and rng.chance(0.5, "xml_unnamed"))
     if named:
         # (style names are unique per family across common and automatic styles in ODF:
         # the two kinds draw from disjoint pools; both pools repeat across families)
@@ -110,6 +112,10 @@ def gen_insert(eng, rng, n, target="main"):
             # own office:font-face-decls, usually with the same names): separate pools, so
             # that the document-level lookup has one candidate
             pool = ["simFA", "simFB"] if kind == "default" else ["simFC", "simFD", "Liberation Sans"]  # (the last one: declared in BOTH parts of every template)
+            used = getattr(eng, "ff_content_names", {}).get(target, set())
+            if kind == "default":
+                pool = [x for x in pool if x not in used] or ["simFE"]  # (a name content.xml declares too would make the document-level lookup answer with that one)
+
         op["name"] = rng.choice(pool, "sname")
         op["name_via"] = rng.choice(["ctor", "arg"], "name_via")
     if fam in FACTORY_FAMILIES and kind == "common" and rng.chance(0.35, "factory?"):
@@ -151,6 +157,10 @@ def build_style(op):
     if op.get("name") == "simInt":
         st.set_attribute("style:display-name", "simShown")
     return st
+
+
+def target_is_main(eng, doc):
+    return doc is eng.sut.doc
 
 
 def run_insert(eng, op, doc, feats):
@@ -219,6 +229,11 @@ def run_insert(eng, op, doc, feats):
     if got is None or xmlref.c14n(got._Element__element) != inserted:
         return [Violation("C13", "returned-name-does-not-find-the-style", "ins_style", f, None,
                           f"insert_style returned {ret!r}; get_style({fam!r}, {ret!r}) gives {'nothing' if got is None else 'another definition'}")]
+    if fam == "font-face" and not default:
+        d_ = dict(getattr(eng, "ff_content_names", {}))
+        k_ = "main" if target_is_main(eng, doc) else "other"
+        d_[k_] = set(d_.get(k_, set())) | {ret}
+        eng.ff_content_names = d_
     eng.c13_inserted.append({"family": fam, "name": ret, "default": default, "c14n": inserted, "key": key})
     return []
 
